@@ -49,7 +49,9 @@ func newScan() *CustomScan {
 
 type CustomPP struct {
 	processors.DefaultInstantiationAwareComponentPostProcessor
-	seen []rec
+	seen          []rec
+	ReturnHandled bool
+	Second        *CustomPP2
 }
 
 func (m *CustomPP) Order() int { return 100 }
@@ -57,6 +59,7 @@ func (m *CustomPP) PostProcessAfterInstantiation(component any, componentName st
 	return true, nil
 }
 func (m *CustomPP) PostProcessProperties(props []*component_definition.Property, component any, name string) ([]*component_definition.Property, error) {
+	handled := []*component_definition.Property{}
 	for _, d := range props {
 		if d.Tag != "mytag" {
 			continue
@@ -68,6 +71,38 @@ func (m *CustomPP) PostProcessProperties(props []*component_definition.Property,
 		m.seen = append(m.seen, rec{name, d.StructField.Name, d.TagVal, strings.Join(as, ";")})
 		if d.Value.Kind() == reflect.String && d.Value.CanSet() {
 			d.Value.SetString("custom:" + d.TagVal)
+		}
+		handled = append(handled, d)
+	}
+	if m.ReturnHandled {
+		// "the properties I processed" - what the signature suggests; it says nothing about the other processors' input
+		return handled, nil
+	}
+	return nil, nil
+}
+
+// a second user tag with its own scanner and a processor that runs after the first one
+type CustomScan2 struct {
+	processors.DefaultTagScanDefinitionRegistryPostProcessor
+}
+
+func newScan2() *CustomScan2 {
+	return &CustomScan2{processors.DefaultTagScanDefinitionRegistryPostProcessor{NodeType: customNodeType, Tag: "mytag2"}}
+}
+
+type CustomPP2 struct {
+	processors.DefaultInstantiationAwareComponentPostProcessor
+	seen []rec
+}
+
+func (m *CustomPP2) Order() int { return 200 }
+func (m *CustomPP2) PostProcessAfterInstantiation(component any, componentName string) (bool, error) {
+	return true, nil
+}
+func (m *CustomPP2) PostProcessProperties(props []*component_definition.Property, component any, name string) ([]*component_definition.Property, error) {
+	for _, d := range props {
+		if d.Tag == "mytag2" {
+			m.seen = append(m.seen, rec{name, d.StructField.Name, d.TagVal, ""})
 		}
 	}
 	return nil, nil
@@ -114,7 +149,12 @@ func genLeaf(t *rapid.T, i int) leaf {
 		name = fmt.Sprintf("f%d", i)
 	}
 	l := leaf{Name: name, Exported: exported}
-	switch rapid.IntRange(0, 15).Draw(t, "leafkind") {
+	switch rapid.IntRange(0, 16).Draw(t, "leafkind") {
+	case 16:
+		// the second user tag: only recorded by its processor, the field itself is left alone
+		l.Kind, l.Type = "custom2", tString
+		l.CVal = rapid.SampledFrom([]string{"w1", "w2"}).Draw(t, "cval3")
+		l.Tag = "mytag2:" + strconv.Quote(l.CVal)
 	case 0:
 		l.Kind, l.Type, l.Tag = "wire", tIAll, `wire:"n1"`
 	case 1:
@@ -363,6 +403,23 @@ func checkPair(t fataler, desc string, ls []leaf, flat, nested reflect.Value, pp
 	if !reflect.DeepEqual(got, want) {
 		t.Fatalf("C11: custom tag processor received %v, want exactly %v\n%s", fmtRecs(got), fmtRecs(want), desc)
 	}
+	if pp.Second != nil {
+		want2, got2 := map[rec]int{}, map[rec]int{}
+		for _, l := range ls {
+			if l.Kind == "custom2" && l.Exported {
+				want2[rec{flatName, l.Name, l.CVal, ""}]++
+				want2[rec{nestedName, l.Name, l.CVal, ""}]++
+			}
+		}
+		for _, r := range pp.Second.seen {
+			if r.Comp == flatName || r.Comp == nestedName {
+				got2[r]++
+			}
+		}
+		if !reflect.DeepEqual(got2, want2) {
+			t.Fatalf("C11: the processor of the second user tag (it runs after the first one; the first returned the properties it handled: %v) received %v, want exactly %v\n%s", pp.ReturnHandled, fmtRecs(got2), fmtRecs(want2), desc)
+		}
+	}
 }
 
 // asSet turns a component value / slice of components into a multiset keyed by identity.
@@ -419,9 +476,9 @@ func TestEmbedding(t *testing.T) {
 				forceSet(m[l.Name], sentinelFor(l.Type))
 			}
 		}
-		pp := &CustomPP{}
+		pp := &CustomPP{ReturnHandled: rapid.Bool().Draw(t, "returnhandled"), Second: &CustomPP2{}}
 		scan := newScan()
-		comps := append(providers(), flat.Interface(), nested.Interface(), pp, scan)
+		comps := append(providers(), flat.Interface(), nested.Interface(), pp, scan, pp.Second, newScan2())
 		comps = rapid.Permutation(comps).Draw(t, "regorder")
 		root := &node{Leaf: -1, Children: tree}
 		var lss []string
@@ -599,7 +656,6 @@ func TestStaticDiamondEmbedding(t *testing.T) {
 	}
 }
 
-
 // ---- one field name at two depths; a lazy component with tagged fields ---------------------------
 
 type ShInner struct {
@@ -667,5 +723,77 @@ func TestStaticShadowAndLazy(t *testing.T) {
 			fail("a component that embeds the LazyInit marker one level down was not processed when demanded: %+v", *ld)
 		}
 		kit.Rec.Case(fmt.Sprintf("static shadowed names + lazy tagged components, round %d", round%2), true, "static-shadow-lazy")
+	}
+}
+
+// ---- an embedded struct that names a configuration prefix of its own ----------------------------------------------
+//
+// CPBase has a value-receiver Prefix() (definition.ConfigurationProperties). Embedded anonymously it is seen
+// through like any other embedded struct: its tagged fields are processed as if declared on the component, its
+// untagged / unexported / foreign-tagged fields stay untouched - whether or not the configuration has an entry under
+// that prefix. (It is not a field of the component, so it is not bound as a whole.)
+
+type CPBase struct {
+	Log syslog.Logger `logger:""`
+	V   string        `value:"lit"`
+	U   string
+	J   string `json:"x"`
+	f   int
+}
+
+func (CPBase) Prefix() string { return "c11.cp" }
+
+type CPDirect struct {
+	Log syslog.Logger `logger:""`
+	V   string        `value:"lit"`
+	U   string
+	J   string `json:"x"`
+	f   int
+}
+type CPEmbed1 struct {
+	CPBase
+	Own string `value:"own"`
+}
+type CPMid struct{ CPBase }
+type CPMid2 struct{ CPMid }
+type CPEmbed3 struct {
+	CPMid2
+	Own string `value:"own"`
+}
+
+func TestStaticEmbeddedPrefixed(t *testing.T) {
+	kit.Rec.Rule(rule)
+	for _, withEntry := range []bool{false, true} {
+		d, e1, e3 := &CPDirect{U: "keep", J: "keep", f: 7}, &CPEmbed1{}, &CPEmbed3{}
+		e1.U, e1.J, e1.f = "keep", "keep", 7
+		e3.U, e3.J, e3.f = "keep", "keep", 7
+		doc := cfg
+		if withEntry {
+			doc += "  cp:\n    v: from-config\n    u: from-config\n    j: from-config\n    log: nope\n"
+		}
+		out := kit.RunApp(app.SetComponents(d, e1, e3), app.SetConfigLoader(loader.NewRawLoader([]byte(doc))))
+		fail := func(f string, a ...any) {
+			msg := fmt.Sprintf(f, a...)
+			kit.DumpReplay("c11-embedded-prefixed", map[string]any{"message": msg, "entry_under_prefix": withEntry})
+			t.Fatalf("C11: %s (configuration entry under the prefix: %v)", msg, withEntry)
+		}
+		if !out.OK() {
+			fail("start failed: %v", out)
+		}
+		if d.Log == nil || d.V != "lit" || d.U != "keep" || d.J != "keep" || d.f != 7 {
+			fail("reference component with the fields declared directly: %+v", *d)
+		}
+		for name, b := range map[string]*CPBase{"one level": &e1.CPBase, "three levels": &e3.CPBase} {
+			if b.Log == nil || b.V != "lit" {
+				fail("embedded %s down, tagged fields are not processed as when declared directly: Log=%v V=%q", name, b.Log, b.V)
+			}
+			if b.U != "keep" || b.J != "keep" || b.f != 7 {
+				fail("embedded %s down, untagged / foreign-tagged / unexported fields were modified: U=%q J=%q f=%d", name, b.U, b.J, b.f)
+			}
+		}
+		if e1.Own != "own" || e3.Own != "own" {
+			fail("the components' own fields: %q %q", e1.Own, e3.Own)
+		}
+		kit.Rec.Case(fmt.Sprintf("embedded struct with a Prefix() of its own, entry=%v", withEntry), true, "embedded-configuration-properties")
 	}
 }
